@@ -36,12 +36,31 @@ TRUSTED = ["harness/vloop.py virtual-time loop and harness/cluster.py latency in
            "koreo.workflow.reconcile._reconcile_step and _reconcile_step_logic)"]
 
 
+def rids_as_dict(r):
+    """resource ids with the per-step mapping as a dict (its insertion order is not part of the result)"""
+    if isinstance(r, list) and r and r[0] == "wf":
+        return {"workflow": r[1], "resources": {k: rids_as_dict(v) for k, v in r[2]}}
+    if isinstance(r, list) and r and r[0] == "many":
+        return [rids_as_dict(x) for x in r[1]]
+    return r
+
+
+def result_view(top):
+    t = dict(top)
+    t["rids"] = rids_as_dict(top["rids"])
+    t["state_errs"] = sorted(top["state_errs"])
+    return t
+
+
 def canon_run(o):
-    """everything the property says must not depend on the schedule"""
-    return {"top": o["top"], "outcomes": o["outcomes"],
+    """everything the property says must not depend on the schedule; mappings (per-step outcomes, resource ids,
+    state) are compared as mappings, lists (overall Ok values, conditions, forEach results) as lists"""
+    return {"top": result_view(o["top"]),
+            "outcomes": {l: [out, rids_as_dict(r)] for l, out, r in o["outcomes"]},
             "trace": sorted(json.dumps({k: t[k] for k in ("path", "tgt", "inputs", "calls")}, sort_keys=True) for t in o["trace"]),
             "calls": sorted(json.dumps([c["method"], c["name"], c["path"]]) for c in o["calls"]),
-            "nested_results": o["nested_results"], "objects_after": o["objects_after"]}
+            "nested_results": {k: result_view(v) for k, v in o["nested_results"].items()},
+            "objects_after": o["objects_after"]}
 
 
 def diff_fields(a, b):
@@ -216,7 +235,7 @@ def scenarios(ctx: Ctx):
         yield c["scenario"] if "scenario" in c else c
     for sc in hand_scenarios():
         yield sc
-    n = 60 if ctx.quick() else 500
+    n = 90 if ctx.quick() else 350
     for i in range(n):
         sc = m.rand_scenario(ctx.rng, nsteps=ctx.rng.choice([2, 3, 4, 5, 6, 8, 10, 12, 16]), broken=False,
                              res_bias=ctx.rng.choice([0.2, 0.4, 0.6]))
